@@ -19,8 +19,9 @@ def builder(func: Callable[..., T_Retval]) -> Callable[..., T_Self | T_Retval]:
 
     def _copy(self: T_Self, *args, **kwargs) -> T_Self | T_Retval:
         self_copy = copy.copy(self) if getattr(self, "immutable", True) else self
-        if self_copy is not self:
-            # (looked up on the class: instances of Table and friends answer every attribute name with a column)
+        if self_copy is not self and func.__name__ != "replace_table":
+            # (looked up on the class: instances of Table and friends answer every attribute name with a column;
+            # replace_table rewrites an object wherever it stands - it derives no new query)
             derived = getattr(type(self_copy), "_derived_by_builder_call", None)
             if derived is not None:
                 derived(self_copy)
